@@ -193,17 +193,21 @@ fn armor_header_line(i: &[u8]) -> IResult<&[u8], BlockType> {
 /// or at a `':'` that ends the line (value-less header).
 fn header_key(i: &[u8]) -> IResult<&[u8], &[u8]> {
     // only look at the current line, a separator on a later line does not belong to this key
-    let Some(line_len) = i.iter().position(|b| *b == b'\n') else {
+    let Some(line) = i
+        .split(|b| *b == b'\n')
+        .next()
+        .filter(|line| line.len() < i.len())
+    else {
         return Err(nom::Err::Incomplete(nom::Needed::Unknown));
     };
-    let line = i[..line_len].strip_suffix(b"\r").unwrap_or(&i[..line_len]);
+    let line = line.strip_suffix(b"\r").unwrap_or(line);
 
     let key_len = match line.windows(2).position(|w| w == b": ") {
         Some(pos) => Some(pos),
         None => line.strip_suffix(b":").map(|key| key.len()),
     };
-    match key_len {
-        Some(len) if len > 0 => Ok((&i[len..], &i[..len])),
+    match key_len.and_then(|len| i.split_at_checked(len)) {
+        Some((key, rest)) if !key.is_empty() => Ok((rest, key)),
         _ => Err(nom::Err::Error(nom::error::Error::new(
             i,
             nom::error::ErrorKind::TakeUntil,
